@@ -311,6 +311,90 @@ def native_check_symlink(v):
     return why is not None, {'why': why, 'results': results, 'files': files}
 
 
+def explore_envchange(item):
+    """two calls with TS_RS_EXPORT_DIR changed in between: export() / export_all() write below the directory the variable names AT THE
+    TIME OF THE CALL"""
+    cfg, (e1, t1), (e2, t2) = item
+    ex = Explorer(time_budget=G.get('time_budget'))
+    tdefs = universe()
+    out = {'violations': [], 'samples': [], 'obligations': 0, 'discharged': 0, 'models': set(), 'inconclusive': []}
+    envs = ['b1', './b2/']
+
+    def harness(ctx):
+        m = W.machine(ctx, cfg, CWD, envs[0])
+        W.install(m, tdefs)
+        results, per_dir = [], {}
+        for k, (e, t) in enumerate(((e1, t1), (e2, t2))):
+            m.env['env'] = {'TS_RS_EXPORT_DIR': o(envs[k])}
+            r = W.call_entry(m, ENTRIES[e], t, 'arg')
+            results.append(r)
+            if r is None:
+                bind = W.norm_path(CWD, 'arg' if ENTRIES[e] == 'export_all_to' else envs[k])
+                for j in ([t] if ENTRIES[e] == 'export' else W.closure(tdefs, t)):
+                    per_dir.setdefault(bind, {})[j] = bind
+        out['models'].update(m.calls)
+        return results, per_dir, W.files_of(m.env['fs'])
+    try:
+        for pc, (results, per_dir, files) in ex.run(harness):
+            out['obligations'] += 1
+            why = None
+            for (e, t), r in zip(((e1, t1), (e2, t2)), results):
+                if r is not None and r[0] == 'panic':
+                    why = f'{ENTRIES[e]}({tdefs[t].name}) panics: {r[1]}'
+                elif (tdefs[t].out is None) != (r is not None):
+                    why = f'{ENTRIES[e]}({tdefs[t].name}) -> {r}'
+            if why is None:
+                want = {}
+                for bind, exported in per_dir.items():
+                    want.update(W.expected_fs(CWD, tdefs, exported, cfg == 'esm'))
+                if dict(files) != want:
+                    diff = sorted(set(files) ^ set(want)) or [f for f in want if files.get(f) != want[f]]
+                    why = f'after TS_RS_EXPORT_DIR changed the files are not where the calls asked for them: {diff[:4]}'
+            if why is not None:
+                out['violations'].append({'cfg': cfg, 'env': envs, 'to': 'arg', 'init': 'empty', 'envchange': True, 'why': why,
+                                          'steps': [(ENTRIES[e1], t1, 'arg'), (ENTRIES[e2], t2, 'arg')], 'engine_files': files})
+            else:
+                out['discharged'] += 1
+    except Unsupported as e:
+        out['inconclusive'].append(f'envchange {item}: {e}')
+    out.update(paths=ex.paths, nontrivial=ex.nontrivial, queries=ex.queries, solver_s=ex.solver_s)
+    out['models'] = sorted(out['models'])
+    return out
+
+
+def native_check_envchange(v):
+    import tempfile, shutil
+    tdefs = universe()
+    steps = [(e, t, d if e == 'export_all_to' else None) for e, t, d in v['steps']]
+    scratch = tempfile.mkdtemp(prefix='tsrs-verif-env-')
+    try:
+        req = [['reset'], ['chdir', scratch]]
+        for i, t in enumerate(tdefs):
+            req.append(['cfg', str(i), t.name, t.decl, t.out if t.out is not None else '-', ','.join(map(str, t.deps))])
+        marks = []
+        for k, (e, t, d) in enumerate(steps):
+            req.append(['setenv', 'TS_RS_EXPORT_DIR', v['env'][k]])
+            marks.append(len(req))
+            req.append([e, str(t)] + ([d] if e == 'export_all_to' else []))
+        req.append(['fsdump', scratch])
+        ans = G['native'][v['cfg']].batch(req, cwd=scratch)
+        results = [ans[k] for k in marks]
+        d_ = ans[-1]
+        files = {p_: c for p_, c in zip(d_[1::2], d_[2::2]) if not p_.endswith('/')}
+    finally:
+        shutil.rmtree(scratch, ignore_errors=True)
+    want, why = {}, None
+    for k, ((entry, t, d), r) in enumerate(zip(steps, results)):
+        if r[0] == 'panic':
+            why = f'{entry}({tdefs[t].name}) panics natively: {r[1]}'
+        elif r[0] == 'ok' and tdefs[t].out is not None:
+            bind = W.norm_path(CWD, d if entry == 'export_all_to' else v['env'][k])
+            want.update(W.expected_fs(CWD, tdefs, {j: bind for j in ([t] if entry == 'export' else W.closure(tdefs, t))}, v['cfg'] == 'esm'))
+    if why is None and {f[len(CWD) + 1:]: c for f, c in want.items()} != files:
+        why = 'natively the files are not where the calls asked for them: ' + str(sorted(set(files) ^ {f[len(CWD) + 1:] for f in want})[:4])
+    return why is not None, {'why': why, 'results': results, 'files': files}
+
+
 def native_check_chdir(v):
     tdefs = universe()
     steps = [(e, t, d if e == 'export_all_to' else None) for e, t, d in v['steps']]
@@ -337,6 +421,8 @@ def native_check(v):
         return native_check_symlink(v)
     if v.get('chain'):
         return native_check_chain(v)
+    if v.get('envchange'):
+        return native_check_envchange(v)
     """replay the history natively; returns (is_violation, details)"""
     tdefs = universe()
     import tempfile
@@ -419,8 +505,10 @@ def main():
     rep.bounds['change_of_working_directory'] = f'{len(chdir_items)} two-call histories with a chdir in between, default directory and a relative export_all_to argument'
     symlink_items = [('plain', a, b) for a in ((0, 0), (0, 1), (1, 2), (2, 2)) for b in ((0, 1), (0, 0), (2, 1), (1, 2))]
     rep.bounds['export_directory_behind_a_symlink'] = f'{len(symlink_items)} two-call histories with TS_RS_EXPORT_DIR / the export_all_to argument naming a directory symlink'
+    rep.bounds['change_of_TS_RS_EXPORT_DIR'] = '8 two-call histories with the variable changed in between'
     rep.bounds['dependency_chain_histories'] = f'{len(CHAIN_ITEMS)} histories over F -> C -> A in which the intermediate type is written before / after the root'
-    results = par.pmap(explore, items) + par.pmap(explore_chdir, chdir_items) + par.pmap(explore_symlink, symlink_items) + par.pmap(explore_chain, CHAIN_ITEMS)
+    results = par.pmap(explore, items) + par.pmap(explore_chdir, chdir_items) + par.pmap(explore_symlink, symlink_items) + par.pmap(explore_chain, CHAIN_ITEMS) \
+        + par.pmap(explore_envchange, [('plain', a, b) for a in ((0, 0), (1, 2)) for b in ((0, 1), (1, 2), (2, 2), (0, 0))])
     cand = []
     for r in results:
         cand += r.pop('violations', [])
